@@ -654,6 +654,16 @@ class LayoutEval:
                 local[p.arg] = kwargs[p.arg]
             elif d is not None:
                 local[p.arg] = self.ev(d, cl.mod, cl.env)
+        named = set(pos) | {p.arg for p in a.kwonlyargs}
+        if a.vararg is not None:
+            local[a.vararg.arg] = tuple(args[len(pos):])
+        elif len(args) > len(pos):
+            raise AnalysisError("too many positional arguments in a layout helper call")
+        extra = {k: v for k, v in kwargs.items() if k not in named}
+        if a.kwarg is not None:
+            local[a.kwarg.arg] = extra
+        elif extra:
+            raise AnalysisError(f"unexpected keyword argument(s) {sorted(extra)} in a layout helper call")
         if isinstance(node, ast.Lambda):
             return self.ev(node.body, cl.mod, local)
         return self._exec_helper(node.body, cl.mod, local)
